@@ -93,6 +93,15 @@ def run_cases(ck, res, n_cases, n_interval):
             # the coordinates (its own derivatives need not vanish)
             pts[r.choice(leaves)] = [0.0] * nrows
         X = {l: enga.col(torch, pts[l]) for l in leaves}
+        aliased = None
+        if n >= 2 and (name.split('_')[0] in ('laplacian', 'grad', 'div') or name == 'vector_laplacian') and r.random() < 0.12:
+            # the SAME tensor object passed for two coordinates (u(t, t) with laplacian(u, t, t)): every LISTED coordinate
+            # contributes its term (2 u_tt here), whatever identity / hashing the implementation uses to organise them (C08/i).
+            # Only the textbook oracle applies (the generated term treats the coordinates as independent variables).
+            i_, j_ = r.sample(range(n), 2)
+            pts[leaves[j_]] = pts[leaves[i_]]
+            X[leaves[j_]] = X[leaves[i_]]
+            aliased = [leaves[i_], leaves[j_]]
         affine_case = r.random() < 0.25
         # a quarter of the cases: fields affine in the coordinates (constant slopes: derivatives that do not require grad)
         probes = {s: (Probe.affine(len(dep), dy(r, -2, 2), [dy(r, -2, 2) or 1.0 for _ in dep]) if affine_case else Probe(len(dep), r, nterms=r.randint(1, 3)))
@@ -109,6 +118,8 @@ def run_cases(ck, res, n_cases, n_interval):
                     fields[k] = X[dep[j]]
                     bare[s] = dep[j]
         inp = {'op': name, 'fields': {s: probes[s].describe() for s, _ in syms}, 'points': pts, 'bare_leaf_components': bare}
+        if aliased:
+            inp['same_tensor_for_coordinates'] = aliased
         try:
             out = call_real(O, name, fields, [X[l] for l in leaves])
         except Exception as e:
@@ -128,7 +139,7 @@ def run_cases(ck, res, n_cases, n_interval):
                 for i in range(nrows):
                     if not enga.close(o[i], tv[i], scale):
                         ck.fail(f'{name}/component{k}', f'{name} component {k} differs from the textbook expression', inp, expected=tv[i], actual=o[i])
-        if res is None or name not in res or 'terms' not in res[name]:
+        if res is None or name not in res or 'terms' not in res[name] or aliased:
             continue
         terms = res[name]['terms']
         fenv = {s: probes[s].jet for s, _ in syms}
